@@ -472,6 +472,9 @@ func (ds *DataStoreSet) updateFullScan(ctx context.Context, store *DataStore, la
 		"active_checks_enabled",
 		"notifications_enabled",
 		"modified_attributes",
+		// follow the timeperiods: a transition the minutely timeperiod update did not see or could not finish is found here
+		"in_check_period",
+		"in_notification_period",
 	}
 
 	// if update is based on last_check, we add next_check here which is not required when updating based on lmd_last_cache_update or last_update
